@@ -9,7 +9,8 @@ import compiles
 import models
 import vlib
 
-FAMS = ["conv_chain", "conv_chain_big", "single", "diamond", "mixed_cpu", "lut_heavy", "conv_chain_big", "single", "lut_mixed"]
+FAMS = ["conv_chain", "conv_chain_big", "single", "diamond", "mixed_cpu", "lut_heavy", "conv_chain_big", "single", "lut_mixed",
+        "multi_subgraph"]
 
 
 def arena_cache_of(job):
@@ -23,6 +24,14 @@ def run(tier):
     okx, xlog = vlib.build_extraction()
     n = 64 if tier == "quick" else 1600
     jobs = compiles.plan(FAMS, n, vlib.seed(), tag="d2", capture=True)
+    # models with several subgraphs (WHILE / IF / CALL_ONCE): command streams inside loop bodies, region extents published
+    # per subgraph.  The shared "d2" plan ignores FAMS, so these are added explicitly.
+    import random
+    import netgen
+    rm = random.Random("c02multi/%d" % vlib.seed())
+    for rep in range(1 if tier == "quick" else 25):
+        for kind in sorted(set(netgen.MULTI_KINDS)):
+            jobs.append({"family": "multi_subgraph:" + kind, "seed": "c02m-%d-%d" % (vlib.seed(), rep), "args": compiles.config_args(rm), "capture": True})
     results = compiles.run_all(jobs, timeout=900)
     programs = 0
     ops_checked = 0
